@@ -307,3 +307,57 @@ def sign_preserving_returns(prog: Program) -> List[Instance]:
                                 f"`{short(r)}` carries the sign of `{p0}`" if ok else
                                 f"`{short(r)}` depends on `{p0}` only through abs(): a negative argument comes back positive (snap_scale(-0.5) == +0.5 un-mirrors a flipped transform)", f.where(r)))
     return out
+
+
+def rotate_in_world(prog: Program) -> List[Instance]:
+    """C02: GeoBox.rotate turns the grid about its centre *in the world*: the rotation is composed on the world
+    side (`Affine.rotation(deg, <world centre>) * self`, GeoBox.__rmul__) and its pivot is the centre pushed
+    through the affine. Composing on the pixel side (`self * Affine.rotation(..)`) rotates in the pixel plane,
+    which differs for non-square or mirrored pixels."""
+    f = prog.func("geobox:GeoBox.rotate")
+    me = f.self_name
+    out: List[Instance] = []
+    for r in (n for n in walk_own(f.node) if isinstance(n, ast.Return) and n.value is not None):
+        v = r.value
+        if not (isinstance(v, ast.BinOp) and isinstance(v.op, ast.Mult)):
+            out.append(Instance("R-FRAME", f"{f.qual}#world-side", INFO, f"`{short(v)}` is not a composition", f.where(r), nontrivial=False))
+            continue
+        rot_left = isinstance(v.left, ast.Call) and call_name(v.left) == "rotation" and isinstance(v.right, ast.Name) and v.right.id == me
+        pivot_world = False
+        if rot_left and len(v.left.args) >= 2:
+            org = Origins(f)
+            piv = v.left.args[1]
+            defs = [piv] + [d for nm in names_in(piv) for _, d in org.defs.get(nm, [])]
+            pivot_world = any(isinstance(d, ast.BinOp) and isinstance(d.op, ast.Mult) and any(isinstance(x, ast.Attribute) and x.attr in ("_affine", "affine", "transform") for x in ast.walk(d.left)) for d in defs for d in ast.walk(d))
+        ok = rot_left and pivot_world
+        out.append(Instance("R-FRAME", f"{f.qual}#world-side", OK if ok else BAD,
+                            "rotation composed on the world side about the centre mapped through the affine" if ok else
+                            f"`{short(v, 60)}` does not compose the rotation on the world side about the world position of the centre: for non-square or mirrored pixels a pixel-plane rotation is a different grid", f.where(r)))
+    return out
+
+
+def idx_bounds_absolute_tol(prog: Program) -> List[Instance]:
+    """C14: the bounding-box query excludes edge contacts 'within 1e-8 units': the shrink applied to the query
+    box before indexing is an absolute constant in CRS units. A shrink that scales with the tile size
+    (1e-8 * tile_size) excludes real overlaps of up to tile_size*1e-8 units."""
+    f = prog.func("gridspec:GridSpec.idx_bounds")
+    org = Origins(f)
+    out: List[Instance] = []
+    shrinks = []
+    for n in walk_own(f.node):
+        if isinstance(n, ast.Call) and call_name(n) == "pt2idx":
+            for a in n.args:
+                if isinstance(a, ast.BinOp) and isinstance(a.op, (ast.Add, ast.Sub)):
+                    shrinks.append(a.right)
+    if not shrinks:
+        return [Instance("R-GUARDSEQ", f"{f.qual}#absolute-tolerance", INFO, "no shrink of the query box found", f.where(), nontrivial=False)]
+    bad = []
+    for sh in shrinks:
+        defs = [sh] + [d for nm in names_in(sh) for _, d in org.defs.get(nm, [])]
+        for d in defs:
+            if any(isinstance(x, ast.BinOp) and isinstance(x.op, (ast.Mult, ast.Div)) and any(isinstance(y, (ast.Name, ast.Attribute)) for y in ast.walk(x)) for x in ast.walk(d)):
+                bad.append(sh)
+    ok = not bad
+    return [Instance("R-GUARDSEQ", f"{f.qual}#absolute-tolerance", OK if ok else BAD,
+                     "the query box is shrunk by an absolute constant before indexing" if ok else
+                     f"the shrink `{short(bad[0])}` is scaled by a run-time quantity: the excluded edge contact grows with the tile size instead of staying at 1e-8 CRS units", f.where())]
